@@ -23,6 +23,16 @@
 //	                            otherwise the assigned variables are merged through a tuple)
 //	switch with fallthrough   → a chain of guarded arms ("entered" flag carried along fallthrough)
 //	calls of other translated functions of the same package → application; len → length
+//	for i := a; i < b; i++ {…} → a helper definition `<fn>_loop<k>` by structural recursion on a fuel argument: one
+//	                            unfolding = test the condition, run the body, increment; the call site passes the fuel
+//	                            (b - a).toNat, which is the exact trip count whenever a ≤ b (and the condition is false
+//	                            at once otherwise). Accepted only when the body contains no break / continue / goto /
+//	                            return and assigns neither i nor a variable of the bound b. The variables assigned in
+//	                            the body are the loop-carried state (returned as a tuple).
+//	"externs" (targets.json)  → a function of the package that is NOT translated (unsafe pointer code): its Lean
+//	                            definition is given in targets.json (TRUSTED, printed in the generated file under the
+//	                            word EXTERN) together with the Go source text it was written for; a change of that
+//	                            source text is a translation error (the extern must be re-validated by hand).
 //	"segments": a consecutive run of statements of a function, translated as a function of the variables it reads
 //	to the variables it assigns (or to its return value).
 package main
@@ -60,6 +70,15 @@ type Module struct {
 	Consts   []string  `json:"consts"`   // package-level constants (value table)
 	Prefixes []string  `json:"prefixes"` // all package-level constants whose name has one of these prefixes
 	Segments []Segment `json:"segments"`
+	Externs  []Extern  `json:"externs"`
+}
+
+// Extern: a function that is not translated; its Lean definition is trusted (see the header comment)
+type Extern struct {
+	Name string `json:"name"` // Go function name
+	Src  string `json:"src"`  // the Go source text (whitespace-normalised) the Lean text was written for
+	Lean string `json:"lean"` // Lean definition(s), emitted verbatim
+	Why  string `json:"why"`
 }
 
 type Targets struct {
@@ -78,6 +97,7 @@ type tr struct {
 	helpers []string
 	selTy   map[string]ty
 	swCount int
+	cnt     map[string]int // helper definitions (switch, loop) are numbered per translated function / segment
 	indent  int
 }
 
@@ -700,6 +720,8 @@ func (t *tr) stmts(list []ast.Stmt, tail func() string, results []string) string
 		return out + cont()
 	case *ast.SwitchStmt:
 		return t.switchStmt(x) + cont()
+	case *ast.ForStmt:
+		return t.forStmt(x) + cont()
 	case *ast.BlockStmt:
 		return t.stmts(append(append([]ast.Stmt{}, x.List...), rest...), tail, results)
 	}
@@ -863,8 +885,8 @@ func (t *tr) switchStmt(x *ast.SwitchStmt) string {
 	}
 	sort.Slice(pvs, func(i, j int) bool { return pvs[i].pos < pvs[j].pos })
 	tagTy, _ := t.typeOfExpr(x.Tag)
-	t.swCount++
-	hname := leanName(strings.ReplaceAll(strings.ReplaceAll(t.curFn, "/", "_"), ".", "_")) + fmt.Sprintf("_sw%d", t.swCount)
+	t.cnt[t.curFn]++
+	hname := leanName(strings.ReplaceAll(strings.ReplaceAll(t.curFn, "/", "_"), ".", "_")) + fmt.Sprintf("_sw%d", t.cnt[t.curFn])
 	var decls, args, rtys []string
 	for _, v := range pvs {
 		decls = append(decls, fmt.Sprintf("(%s : %s)", leanName(v.name), v.y.lean()))
@@ -919,6 +941,148 @@ func (t *tr) switchStmt(x *ast.SwitchStmt) string {
 	t.indent = saved
 	t.helpers = append(t.helpers, h)
 	return fmt.Sprintf("%slet %s := %s %s %s\n", p, tp, hname, t.expr(x.Tag), strings.Join(args, " "))
+}
+
+
+// for i := a; i < b; i++ { body }   (counted loop; see the header comment for the accepted form)
+func (t *tr) forStmt(x *ast.ForStmt) string {
+	p := t.pad()
+	init, ok1 := x.Init.(*ast.AssignStmt)
+	cond, ok2 := x.Cond.(*ast.BinaryExpr)
+	post, ok3 := x.Post.(*ast.IncDecStmt)
+	if !ok1 || !ok2 || !ok3 || init.Tok != token.DEFINE || len(init.Lhs) != 1 || len(init.Rhs) != 1 || cond.Op != token.LSS || post.Tok != token.INC {
+		return p + t.fail(x, "for statement form (only `for i := a; i < b; i++`)") + "\n"
+	}
+	iv, ok := init.Lhs[0].(*ast.Ident)
+	ci, okc := cond.X.(*ast.Ident)
+	pi, okp := post.X.(*ast.Ident)
+	if !ok || !okc || !okp || ci.Name != iv.Name || pi.Name != iv.Name {
+		return p + t.fail(x, "for statement form (loop variable)") + "\n"
+	}
+	iobj := t.info.Defs[iv]
+	if iobj == nil || t.info.Uses[ci] != iobj || t.info.Uses[pi] != iobj {
+		return p + t.fail(x, "for statement form (loop variable object)") + "\n"
+	}
+	iy, ok := t.tyOf(iobj.Type())
+	if !ok || iy.kind != "bv" {
+		return p + t.fail(x, "loop variable type") + "\n"
+	}
+	bad := ""
+	ast.Inspect(x.Body, func(n ast.Node) bool {
+		switch n.(type) {
+		case *ast.BranchStmt:
+			bad = "break/continue/goto"
+		case *ast.ReturnStmt:
+			bad = "return"
+		case *ast.FuncLit, *ast.DeferStmt, *ast.GoStmt:
+			bad = "closure/defer/go"
+		}
+		return true
+	})
+	if bad != "" {
+		return p + t.fail(x, "%s inside a loop body", bad) + "\n"
+	}
+	carried := t.assigned(x.Body.List)
+	isCarried := map[string]bool{}
+	for _, c := range carried {
+		isCarried[c] = true
+	}
+	if isCarried[iv.Name] {
+		return p + t.fail(x, "loop variable assigned in the body") + "\n"
+	}
+	boundBad := false
+	ast.Inspect(cond.Y, func(n ast.Node) bool {
+		if id, ok := n.(*ast.Ident); ok && isCarried[id.Name] {
+			boundBad = true
+		}
+		return true
+	})
+	if boundBad {
+		return p + t.fail(x, "loop bound assigned in the body") + "\n"
+	}
+	if len(carried) == 0 {
+		return ""
+	}
+	// free variables of body and bound (declared outside the for statement), in order of declaration
+	type pv struct {
+		name string
+		pos  token.Pos
+		y    ty
+	}
+	var pvs []pv
+	seen := map[types.Object]bool{}
+	collect := func(root ast.Node) {
+		ast.Inspect(root, func(n ast.Node) bool {
+			id, ok := n.(*ast.Ident)
+			if !ok {
+				return true
+			}
+			obj, ok := t.info.ObjectOf(id).(*types.Var)
+			if !ok || obj.Parent() == t.pkg.Scope() || obj.IsField() || seen[obj] {
+				return true
+			}
+			if obj.Pos() >= x.Pos() && obj.Pos() < x.End() {
+				return true // declared inside the loop (the loop variable, body locals)
+			}
+			seen[obj] = true
+			y, ok := t.tyOf(obj.Type())
+			if !ok {
+				t.fail(id, "loop variable type %s", obj.Type())
+			}
+			pvs = append(pvs, pv{obj.Name(), obj.Pos(), y})
+			return true
+		})
+	}
+	collect(cond.Y)
+	collect(x.Body)
+	sort.Slice(pvs, func(i, j int) bool { return pvs[i].pos < pvs[j].pos })
+	t.cnt[t.curFn]++
+	hname := leanName(strings.ReplaceAll(strings.ReplaceAll(t.curFn, "/", "_"), ".", "_")) + fmt.Sprintf("_loop%d", t.cnt[t.curFn])
+	var fdecls, fargs, cdecls, cargs, rtys []string
+	for _, v := range pvs {
+		if isCarried[v.name] {
+			continue
+		}
+		fdecls = append(fdecls, fmt.Sprintf("(%s : %s)", leanName(v.name), v.y.lean()))
+		fargs = append(fargs, leanName(v.name))
+	}
+	for _, c := range carried {
+		found := false
+		for _, v := range pvs {
+			if v.name == c {
+				cdecls = append(cdecls, fmt.Sprintf("(%s : %s)", leanName(c), v.y.lean()))
+				cargs = append(cargs, leanName(c))
+				rtys = append(rtys, v.y.lean())
+				found = true
+			}
+		}
+		if !found {
+			return p + t.fail(x, "carried variable %s", c) + "\n"
+		}
+	}
+	tp := tuple(carried)
+	i := leanName(iv.Name)
+	pos := t.fset.Position(x.Pos())
+	h := fmt.Sprintf("/-- %s: the loop `for %s; %s; %s` of `%s`: at most `fuel` iterations; carried variables %s -/\n",
+		filepath.Base(pos.Filename), src(t.fset, init), src(t.fset, cond), src(t.fset, post), t.curFn, strings.Join(carried, ", "))
+	h += fmt.Sprintf("def %s %s (fuel : Nat) (%s : %s) %s : %s :=\n", hname, strings.Join(fdecls, " "), i, iy.lean(), strings.Join(cdecls, " "), strings.Join(rtys, " × "))
+	saved := t.indent
+	t.indent = 1
+	hp := t.pad()
+	h += hp + "match fuel with\n" + hp + "| 0 => " + tp + "\n" + hp + "| fuel + 1 =>\n"
+	t.indent = 2
+	hp = t.pad()
+	h += hp + "if " + t.expr(x.Cond) + " then\n"
+	t.indent = 3
+	rec := fmt.Sprintf("%s %s fuel (%s + 0x1#%d) %s", hname, strings.Join(fargs, " "), i, iy.w, strings.Join(cargs, " "))
+	h += t.stmts(x.Body.List, func() string { return rec }, nil)
+	t.indent = 2
+	h += hp + "else " + tp + "\n"
+	t.indent = saved
+	t.helpers = append(t.helpers, h)
+	a := t.expr(init.Rhs[0])
+	b := t.expr(cond.Y)
+	return fmt.Sprintf("%slet %s := %s %s ((%s - %s).toNat) %s %s\n", p, tp, hname, strings.Join(fargs, " "), b, a, a, strings.Join(cargs, " "))
 }
 
 // ---- functions, segments, constants
@@ -1206,7 +1370,7 @@ func main() {
 		info := &types.Info{Types: map[ast.Expr]types.TypeAndValue{}, Defs: map[*ast.Ident]types.Object{}, Uses: map[*ast.Ident]types.Object{}}
 		conf := types.Config{Importer: importer.ForCompiler(fset, "source", nil), Error: func(error) {}, FakeImportC: true}
 		pkg, _ := conf.Check(bp.ImportPath, fset, files, info)
-		t := &tr{fset: fset, info: info, pkg: pkg, known: map[string]bool{}, selTy: map[string]ty{}}
+		t := &tr{fset: fset, info: info, pkg: pkg, known: map[string]bool{}, selTy: map[string]ty{}, cnt: map[string]int{}}
 		decls := map[string]*ast.FuncDecl{}
 		for _, f := range files {
 			for _, d := range f.Decls {
@@ -1229,6 +1393,20 @@ func main() {
 			t.known[f] = true
 		}
 		var body strings.Builder
+		for _, ex := range m.Externs {
+			fd := decls[ex.Name]
+			if fd == nil {
+				allErrs = append(allErrs, fmt.Sprintf("%s: extern %s not found", m.Lean, ex.Name))
+				continue
+			}
+			if got := src(fset, fd); got != ex.Src {
+				allErrs = append(allErrs, fmt.Sprintf("%s: extern %s: the Go source changed since its trusted Lean definition was written (re-validate it): %s", m.Lean, ex.Name, got))
+				continue
+			}
+			t.known[ex.Name] = true
+			pos := fset.Position(fd.Pos())
+			fmt.Fprintf(&body, "/-- EXTERN (TRUSTED, not translated) %s `%s`: %s\n    written for the source text: %s -/\n%s\n\n", filepath.Base(pos.Filename), ex.Name, ex.Why, ex.Src, ex.Lean)
+		}
 		// constants
 		names := append([]string{}, m.Consts...)
 		if len(m.Prefixes) > 0 {
